@@ -34,6 +34,11 @@ func worldWorkConn(w *World) {
 		"allowPorts":      []map[string]any{{"start": 20000, "end": 20009}},
 		"userConnTimeout": uct,
 	}
+	// visitors may reach the server over QUIC (their address is then a UDP address)
+	visitorQUIC := path == 3 && w.KnobBool("visitor_via_quic", 40)
+	if visitorQUIC {
+		scfg["quicBindPort"] = 7001
+	}
 	env := w.newLcEnv(scfg, token, PeerOpts{Server: "10.0.0.1:7000", Mux: tcpMux, Token: token})
 	env.muxPort = 7005
 	env.start()
@@ -139,6 +144,9 @@ func worldWorkConn(w *World) {
 			case 3:
 				// a scripted visitor: open a visitor connection signed with the secret key
 				v := env.newClient("", 0)
+				if visitorQUIC {
+					v.Opts.QUIC, v.Opts.Server, v.Opts.Mux, v.Opts.TLS = true, "10.0.0.1:7001", false, false
+				}
 				vc, e2 := v.Connect()
 				if e2 != nil {
 					u.err = e2
@@ -155,7 +163,7 @@ func worldWorkConn(w *World) {
 					return
 				}
 				conn = vc
-				u.local = ""
+				u.local = vc.LocalAddr().String()
 			default:
 				var sc *simnet.Conn
 				sc, err = simnet.DialFrom(ip, addr, 10*time.Second)
@@ -251,7 +259,10 @@ func worldWorkConn(w *World) {
 		if s.Proxy != pname {
 			viol("start", "wrong-proxy-name", "StartWorkConn names %q, the only proxy is %q", s.Proxy, pname)
 		}
-		if path != 3 && s.Src != "" {
+		if s.Src == "" {
+			viol("start", "user-address-not-announced", "StartWorkConn for proxy %q announces no user address (accept path %d, visitor over quic=%v)", s.Proxy, pathName, visitorQUIC)
+		}
+		if s.Src != "" {
 			if !locals[s.Src] {
 				viol("start", "wrong-user-address", "StartWorkConn announces user address %s which no user has (users: %v)", s.Src, locals)
 			}
